@@ -703,4 +703,437 @@ def kindsOkB (s : Schema) : Bool :=
     decide (f.kind = f.ty ∨ (f.ty = .message ∧ f.kind = .group))) &&
   ((allExts s).all fun e => decide (e.field.kind = e.field.ty ∨ (e.field.ty = .message ∧ e.field.kind = .group)))
 
+/-! ### images with import files and the client's exclude-imports option
+
+  `bufcheckserverutil/breaking.go`: NO pair handler looks at `IsImport()` — every file of both
+  images is compared, so `check` above is the result of `buf breaking` whatever the import flags
+  are (`--path a.proto` where a.proto imports b.proto, a changed dependency module).
+  `bufcheck/client.go` `filterAnnotations` / `ignoreAnnotation` / `ignoreFileLocation`: only with
+  `BreakingWithExcludeImports` (`--exclude-imports`) an annotation is dropped when its FILE location
+  is in an import file of the CURRENT image, or else when its AGAINST location is in an import file
+  of the PREVIOUS image.  The against location is what each handler passes as `againstLocation`
+  to `AddProtosourceAnnotation` (nil when the previous element has no such location), so the rules
+  are restated here with that information attached (`…T`, "tagged"); `TagOK` ties them back to the
+  untagged rules the theorems are about. -/
+
+/-- an annotation with the file of its against location (`none`: no against location) -/
+structure TAnn where
+  ann : Ann
+  against : Option String
+deriving DecidableEq, Repr, Inhabited
+
+/-- the against location exists iff one of the candidate paths has a location in the previous file
+    (`withBackupLocation(cands…)` on the previous side) -/
+def agAt (file : String) (locs : List SPath) (cands : List SPath) : Option String :=
+  if cands.any (fun p => decide (p ∈ locs)) then some file else none
+
+/-- an (optional) option location first, then exact candidates -/
+def agOpt (file : String) (locs : List SPath) (o : Option SPath) (cands : List SPath) : Option String :=
+  match o with
+  | some _ => some file
+  | none => agAt file locs cands
+
+/-- attach the against location to the annotations of one handler call (`macro_inline`: the
+    compiled driver computes `ag` only when there is an annotation) -/
+@[macro_inline] def tag (ag : Option String) (as : List Ann) : List TAnn := as.map fun a => ⟨a, ag⟩
+
+/-- `pairwise`, for any result type -/
+def pairwiseG {α κ β : Type} [DecidableEq κ] (key : α → κ) (cur prev : List α)
+    (onMissing : α → List β) (onPair : α → α → List β) : List β :=
+  prev.flatMap fun p =>
+    match cur.find? (fun c => decide (key c = key p)) with
+    | none => onMissing p
+    | some c => onPair c p
+
+def filePairsG {β : Type} (cur prev : Schema) (f : File → File → List β) : List β :=
+  pairwiseG File.path cur prev (fun _ => []) f
+def enumPairsG {β : Type} (cur prev : Schema) (f : FlatEnum → FlatEnum → List β) : List β :=
+  pairwiseG FlatEnum.fullName (allEnums cur) (allEnums prev) (fun _ => []) f
+def msgPairsG {β : Type} (cur prev : Schema) (f : FlatMsg → FlatMsg → List β) : List β :=
+  pairwiseG FlatMsg.fullName (allMsgs cur) (allMsgs prev) (fun _ => []) f
+def svcPairsG {β : Type} (cur prev : Schema) (f : FlatSvc → FlatSvc → List β) : List β :=
+  pairwiseG FlatSvc.fullName (allSvcs cur) (allSvcs prev) (fun _ => []) f
+def fieldPairsG {β : Type} (cur prev : Schema) (f : FlatField → FlatField → List β) : List β :=
+  msgPairsG cur prev (fun c p =>
+    pairwiseG (fun x => x.field.number) (msgFields c) (msgFields p) (fun _ => []) f) ++
+  pairwiseG (fun x => (x.field.extendee, x.field.number)) (extFields cur) (extFields prev) (fun _ => []) f
+def methodPairsG {β : Type} (cur prev : Schema) (f : FlatMethod → FlatMethod → List β) : List β :=
+  svcPairsG cur prev fun c p =>
+    pairwiseG (fun x => x.m.name) (svcMethods c) (svcMethods p) (fun _ => []) f
+
+/-! against locations of the previous element: `previousX.Location()` -/
+def msgAg (p : FlatMsg) : Option String := agAt p.file p.locs ([p.path] ++ p.mapLoc.toList)
+def enumAg (p : FlatEnum) : Option String := agAt p.file p.locs [p.path]
+def extAg (p : FlatExt) : Option String := agAt p.file p.locs [p.path]
+def svcAg (p : FlatSvc) : Option String := agAt p.file p.locs [p.path]
+/-- field Location / NameLocation / TypeLocation / TypeNameLocation candidates, each falling back to
+    the map-entry location (as `fieldAnn` on the current side) -/
+def fieldAg (p : FlatField) (cands : List SPath) : Option String :=
+  agAt p.file p.locs (cands ++ p.mapLoc.toList)
+
+def ruleEnumNoDeleteT (cur prev : Schema) : List TAnn :=
+  filePairsG cur prev fun c p =>
+    pairwiseG FlatEnum.nested c.flatEnums p.flatEnums
+      (fun pe => tag (enumAg pe) [deletedAnn "ENUM_NO_DELETE" c pe.nested]) (fun _ _ => [])
+
+def ruleExtensionNoDeleteT (cur prev : Schema) : List TAnn :=
+  filePairsG cur prev fun c p =>
+    pairwiseG FlatExt.nested c.flatExts p.flatExts
+      (fun pe => tag (extAg pe) [deletedAnn "EXTENSION_NO_DELETE" c pe.nested]) (fun _ _ => [])
+
+def ruleMessageNoDeleteT (cur prev : Schema) : List TAnn :=
+  filePairsG cur prev fun c p =>
+    pairwiseG FlatMsg.nested c.flatMsgs p.flatMsgs
+      (fun pm => tag (msgAg pm) [deletedAnn "MESSAGE_NO_DELETE" c pm.nested]) (fun _ _ => [])
+
+def ruleServiceNoDeleteT (cur prev : Schema) : List TAnn :=
+  filePairsG cur prev fun c p =>
+    pairwiseG (fun s => s.svc.name) c.flatSvcs p.flatSvcs
+      (fun ps => tag (svcAg ps) [⟨"SERVICE_NO_DELETE", c.path, []⟩]) (fun _ _ => [])
+
+/-- `check.WithAgainstFileName(previousFilePath)`: a file-only against location, always present -/
+def ruleFileNoDeleteT (cur prev : Schema) : List TAnn :=
+  pairwiseG File.path cur prev (fun p => tag (some p.path) [⟨"FILE_NO_DELETE", "", []⟩]) (fun _ _ => [])
+
+/-- checkFileSameValue: `previousLocation` is the statement / option location of the previous file -/
+def fileSameT {β : Type} [DecidableEq β] (rule : String) (get : File → β) (locPath : SPath) (cur prev : Schema) : List TAnn :=
+  filePairsG cur prev fun c p =>
+    tag (agAt p.path p.locs [locPath]) (if get p ≠ get c then [annAt rule c.path c.locs [locPath] c.path] else [])
+
+def ruleFileSameOptionT (rule : String) (n : Nat) (cur prev : Schema) : List TAnn :=
+  fileSameT rule (fun f => f.opt n) [8, n] cur prev
+def ruleFileSameSyntaxT (cur prev : Schema) : List TAnn :=
+  fileSameT "FILE_SAME_SYNTAX" (fun f => f.syn.norm) [12] cur prev
+def ruleFileSamePackageT (cur prev : Schema) : List TAnn :=
+  fileSameT "FILE_SAME_PACKAGE" File.pkg [2] cur prev
+
+def rulePackageEnumNoDeleteT (cur prev : Schema) : List TAnn :=
+  (allEnums prev).flatMap fun pe => tag (enumAg pe) (
+    if pe.pkg ∈ cur.map File.pkg then
+      match (allEnums cur).find? (fun ce => decide (ce.pkg = pe.pkg ∧ ce.nested = pe.nested)) with
+      | some _ => []
+      | none =>
+        match cur.find? (fun f => decide (f.path = pe.file)) with
+        | some f => [deletedAnn "PACKAGE_ENUM_NO_DELETE" f pe.nested]
+        | none => [⟨"PACKAGE_ENUM_NO_DELETE", "", []⟩]
+    else [])
+
+def rulePackageExtensionNoDeleteT (cur prev : Schema) : List TAnn :=
+  (allExts prev).flatMap fun pe => tag (extAg pe) (
+    if pe.pkg ∈ cur.map File.pkg then
+      match (allExts cur).find? (fun ce => decide (ce.pkg = pe.pkg ∧ ce.nested = pe.nested)) with
+      | some _ => []
+      | none =>
+        match cur.find? (fun f => decide (f.path = pe.file)) with
+        | some f => [deletedAnn "PACKAGE_EXTENSION_NO_DELETE" f pe.nested]
+        | none => [⟨"PACKAGE_EXTENSION_NO_DELETE", "", []⟩]
+    else [])
+
+def rulePackageMessageNoDeleteT (cur prev : Schema) : List TAnn :=
+  (allMsgs prev).flatMap fun pm => tag (msgAg pm) (
+    if pm.pkg ∈ cur.map File.pkg then
+      let inPkg := (allMsgs cur).filter (fun cm => decide (cm.pkg = pm.pkg))
+      match inPkg.find? (fun cm => decide (cm.nested = pm.nested)) with
+      | some _ => []
+      | none =>
+        match cur.find? (fun f => decide (f.path = pm.file)) with
+        | some f =>
+          match enclosingIn inPkg pm.nested with
+          | some m => [annAt "PACKAGE_MESSAGE_NO_DELETE" m.file m.locs ([m.path] ++ m.mapLoc.toList) m.file]
+          | none => [⟨"PACKAGE_MESSAGE_NO_DELETE", f.path, []⟩]
+        | none => [⟨"PACKAGE_MESSAGE_NO_DELETE", "", []⟩]
+    else [])
+
+def rulePackageServiceNoDeleteT (cur prev : Schema) : List TAnn :=
+  (allSvcs prev).flatMap fun ps => tag (svcAg ps) (
+    if ps.pkg ∈ cur.map File.pkg then
+      match (allSvcs cur).find? (fun cs => decide (cs.pkg = ps.pkg ∧ cs.svc.name = ps.svc.name)) with
+      | some _ => []
+      | none =>
+        match cur.find? (fun f => decide (f.path = ps.file)) with
+        | some f => [⟨"PACKAGE_SERVICE_NO_DELETE", f.path, []⟩]
+        | none => [⟨"PACKAGE_SERVICE_NO_DELETE", "", []⟩]
+    else [])
+
+/-- the least string of a non-empty list (`slices.Sort(previousDescriptorsFileNames)[0]`) -/
+def leastStr : List String → String
+  | [] => ""
+  | x :: xs => xs.foldl (fun m y => if y < m then y else m) x
+
+/-- handleBreakingPackageNoDelete: `check.WithAgainstFileName` of the alphabetically first previous
+    file of the deleted package -/
+def rulePackageNoDeleteT (cur prev : Schema) : List TAnn :=
+  prev.flatMap fun pf =>
+    tag (some (leastStr ((prev.filter fun g => decide (g.pkg = pf.pkg)).map File.path)))
+      (if pf.pkg ∈ cur.map File.pkg then [] else [⟨"PACKAGE_NO_DELETE", "", []⟩])
+
+def ruleEnumSameTypeT (cur prev : Schema) : List TAnn :=
+  enumPairsG cur prev fun c p =>
+    tag (agOpt p.file p.locs (optLoc p.locs (p.path ++ [3]) 7 [2]) [p.path]) (
+      if p.enum.closed ≠ c.enum.closed then
+        [annOpt "ENUM_SAME_TYPE" c.file c.locs (optLoc c.locs (c.path ++ [3]) 7 [2]) [c.path] c.file]
+      else [])
+
+def ruleEnumSameJsonFormatT (cur prev : Schema) : List TAnn :=
+  enumPairsG cur prev fun c p =>
+    tag (agOpt p.file p.locs (optLoc p.locs (p.path ++ [3]) 7 [6]) [p.path]) (
+      if p.enum.jsonAllow ∧ ¬ c.enum.jsonAllow then
+        [annOpt "ENUM_SAME_JSON_FORMAT" c.file c.locs (optLoc c.locs (c.path ++ [3]) 7 [6]) [c.path] c.file]
+      else [])
+
+def enumValueNoDeleteT (rule : String) (allowNumber allowName : Bool) (cur prev : Schema) : List TAnn :=
+  enumPairsG cur prev fun c p => tag (enumAg p) (
+    p.enum.values.flatMap fun pv =>
+      if c.enum.hasNumber pv.number then [] else
+      let allowed :=
+        if allowNumber then numberReserved c.enum.reservedRanges pv.number
+        else if allowName then
+          (p.enum.values.filter fun w => decide (w.number = pv.number)).all fun w => decide (w.name ∈ c.enum.reservedNames)
+        else false
+      if allowed then [] else [enumLoc c rule p.file])
+
+/-- the against location of each annotation is the NUMBER location of the previous value with the
+    same name (and number), if there is one (`previousNameToEnumValue[enumName]`) -/
+def ruleEnumValueSameNameT (cur prev : Schema) : List TAnn :=
+  enumPairsG cur prev fun c p =>
+    p.enum.values.flatMap fun pv =>
+      let names := (c.enum.values.filter fun w => decide (w.number = pv.number)).map (·.name)
+      let prevNames := (p.enum.values.filter fun w => decide (w.number = pv.number)).map (·.name)
+      if prevNames.all (fun n => decide (n ∈ names)) then [] else
+        ((indexed c.enum.values).filter fun iw => decide (iw.2.number = pv.number)).map fun iw =>
+          ⟨annAt "ENUM_VALUE_SAME_NAME" c.file c.locs [c.path ++ [2, iw.1, 2]] c.file,
+           match (indexed p.enum.values).find? (fun jw => decide (jw.2.number = pv.number ∧ jw.2.name = iw.2.name)) with
+           | some jw => agAt p.file p.locs [p.path ++ [2, jw.1, 2]]
+           | none => none⟩
+
+def ruleReservedEnumNoDeleteT (cur prev : Schema) : List TAnn :=
+  enumPairsG cur prev fun c p => tag (enumAg p) (
+    (p.enum.reservedRanges.flatMap fun r =>
+      if rangeMissing c.enum.reservedRanges r then [enumLoc c "RESERVED_ENUM_NO_DELETE"] else []) ++
+    (p.enum.reservedNames.flatMap fun n =>
+      if n ∈ c.enum.reservedNames then [] else [enumLoc c "RESERVED_ENUM_NO_DELETE"]))
+
+def fieldNoDeleteT (rule : String) (allowNumber allowName : Bool) (cur prev : Schema) : List TAnn :=
+  msgPairsG cur prev fun c p => tag (msgAg p) (
+    p.info.fields.flatMap fun pf =>
+      if c.info.hasNumber pf.number then [] else
+      if (allowNumber && numberReserved c.info.reservedRanges pf.number) ||
+         (allowName && decide (pf.name ∈ c.info.reservedNames)) then []
+      else [msgLoc c rule])
+
+def ruleExtensionMessageNoDeleteT (cur prev : Schema) : List TAnn :=
+  msgPairsG cur prev fun c p => tag (msgAg p) (
+    p.info.extRanges.flatMap fun r =>
+      if rangeMissing c.info.extRanges r then [msgLoc c "EXTENSION_MESSAGE_NO_DELETE"] else [])
+
+def ruleMessageNoRemoveStdAccessorT (cur prev : Schema) : List TAnn :=
+  msgPairsG cur prev fun c p => tag (agAt p.file p.locs [p.path ++ [7, 2]]) (
+    if !p.info.noStdAccessor && c.info.noStdAccessor then
+      [annAt "MESSAGE_NO_REMOVE_STANDARD_DESCRIPTOR_ACCESSOR" c.file c.locs [c.path ++ [7, 2]] c.file]
+    else [])
+
+def ruleOneofNoDeleteT (cur prev : Schema) : List TAnn :=
+  msgPairsG cur prev fun c p => tag (msgAg p) (
+    p.info.oneofs.flatMap fun po =>
+      if po.name ∈ c.info.oneofs.map (·.name) then [] else
+      if po.synthetic then [] else [msgLoc c "ONEOF_NO_DELETE"])
+
+def ruleMessageSameJsonFormatT (cur prev : Schema) : List TAnn :=
+  msgPairsG cur prev fun c p =>
+    tag (agOpt p.file p.locs (optLoc p.locs (p.path ++ [7]) 12 [6]) ([p.path] ++ p.mapLoc.toList)) (
+      if p.info.jsonAllow ∧ ¬ c.info.jsonAllow then
+        [annOpt "MESSAGE_SAME_JSON_FORMAT" c.file c.locs (optLoc c.locs (c.path ++ [7]) 12 [6]) ([c.path] ++ c.mapLoc.toList) c.file]
+      else [])
+
+/-- a deleted required field: against = the previous message; an added one: no against location -/
+def ruleMessageSameRequiredFieldsT (cur prev : Schema) : List TAnn :=
+  msgPairsG cur prev fun c p =>
+    tag (msgAg p) (p.info.requiredNumbers.flatMap fun n =>
+      if n ∈ c.info.requiredNumbers then [] else [msgLoc c "MESSAGE_SAME_REQUIRED_FIELDS"]) ++
+    tag none ((indexed c.info.fields).flatMap fun jf =>
+      if jf.2.label = .required ∧ jf.2.number ∉ p.info.requiredNumbers then
+        [annAt "MESSAGE_SAME_REQUIRED_FIELDS" c.file c.locs ([c.path ++ [2, jf.1]] ++ c.mapLoc.toList) c.file]
+      else [])
+
+def ruleReservedMessageNoDeleteT (cur prev : Schema) : List TAnn :=
+  msgPairsG cur prev fun c p => tag (msgAg p) (
+    (p.info.reservedRanges.flatMap fun r =>
+      if rangeMissing c.info.reservedRanges r then [msgLoc c "RESERVED_MESSAGE_NO_DELETE"] else []) ++
+    (p.info.reservedNames.flatMap fun n =>
+      if n ∈ c.info.reservedNames then [] else [msgLoc c "RESERVED_MESSAGE_NO_DELETE"]))
+
+def cardRuleT (rule : String) (grp : Card → Nat) (cur prev : Schema) : List TAnn :=
+  fieldPairsG cur prev fun c p => tag (fieldAg p [p.path]) (
+    if p.field.inMapEntry && c.field.inMapEntry then [] else
+    if grp p.field.card ≠ grp c.field.card then [fieldAnn rule c [c.path]] else [])
+
+/-- addFieldChangedType: `previousFieldLocation` by the PREVIOUS kind -/
+def changedTypeAg (p : FlatField) : Option String :=
+  fieldAg p [if p.field.kind.named then p.path ++ [6] else p.path ++ [5]]
+/-- addEnumGroupMessageFieldChangedTypeName: `previousField.TypeNameLocation()` -/
+def changedTypeNameAg (p : FlatField) : Option String := fieldAg p [p.path ++ [6]]
+
+def ruleFieldSameTypeT (cur prev : Schema) : List TAnn :=
+  fieldPairsG cur prev fun c p =>
+    if p.field.kind ≠ c.field.kind then tag (changedTypeAg p) [changedTypeAnn "FIELD_SAME_TYPE" c]
+    else if c.field.ty.named ∧ p.field.typeName ≠ c.field.typeName then
+      tag (changedTypeNameAg p) [changedTypeNameAnn "FIELD_SAME_TYPE" c]
+    else []
+
+def ruleFieldWireCompatibleTypeT (cur prev : Schema) : List TAnn :=
+  let rule := "FIELD_WIRE_COMPATIBLE_TYPE"
+  fieldPairsG cur prev fun c p =>
+    if p.field.kind.wireGroup ≠ c.field.kind.wireGroup then
+      if p.field.kind = .string ∧ c.field.kind = .bytes then [] else tag (changedTypeAg p) [changedTypeAnn rule c]
+    else if c.field.ty = .enum then
+      if p.field.typeName ≠ c.field.typeName then tag (changedTypeNameAg p) (enumWireCompatible rule cur prev c p) else []
+    else if c.field.ty = .group ∨ c.field.ty = .message then
+      if p.field.typeName ≠ c.field.typeName then tag (changedTypeNameAg p) [changedTypeNameAnn rule c] else []
+    else []
+
+def ruleFieldWireJsonCompatibleTypeT (cur prev : Schema) : List TAnn :=
+  let rule := "FIELD_WIRE_JSON_COMPATIBLE_TYPE"
+  fieldPairsG cur prev fun c p =>
+    if p.field.kind.wireJsonGroup ≠ c.field.kind.wireJsonGroup then tag (changedTypeAg p) [changedTypeAnn rule c]
+    else if c.field.kind = .enum then
+      if p.field.typeName ≠ c.field.typeName then tag (changedTypeNameAg p) (enumWireCompatible rule cur prev c p) else []
+    else if c.field.kind = .group ∨ c.field.kind = .message then
+      if p.field.typeName ≠ c.field.typeName then tag (changedTypeNameAg p) [changedTypeNameAnn rule c] else []
+    else []
+
+def ruleFieldSameJstypeT (cur prev : Schema) : List TAnn :=
+  fieldPairsG cur prev fun c p => tag (fieldAg p [p.path ++ [8, 6], p.path]) (
+    if !p.field.ty.is64 || !c.field.ty.is64 then [] else
+    if p.field.jstype ≠ c.field.jstype then
+      [fieldAnn "FIELD_SAME_JSTYPE" c [c.path ++ [8, 6], c.path]] else [])
+
+def ruleFieldSameUtf8ValidationT (cur prev : Schema) : List TAnn :=
+  fieldPairsG cur prev fun c p =>
+    tag (agOpt p.file p.locs (optLoc p.locs (p.path ++ [8]) 21 [4]) ([p.path] ++ p.mapLoc.toList)) (
+      if p.field.kind ≠ .string ∨ c.field.kind ≠ .string then [] else
+      if p.field.utf8 ≠ c.field.utf8 then
+        [annOpt "FIELD_SAME_UTF8_VALIDATION" c.file c.locs (optLoc c.locs (c.path ++ [8]) 21 [4]) ([c.path] ++ c.mapLoc.toList) c.file]
+      else [])
+
+def ruleFieldSameJsonNameT (cur prev : Schema) : List TAnn :=
+  fieldPairsG cur prev fun c p => tag (fieldAg p [p.path ++ [10], p.path]) (
+    if p.field.extendee ≠ "" then [] else
+    if p.field.jsonName ≠ c.field.jsonName then
+      [fieldAnn "FIELD_SAME_JSON_NAME" c [c.path ++ [10], c.path]] else [])
+
+def ruleFieldSameNameT (cur prev : Schema) : List TAnn :=
+  fieldPairsG cur prev fun c p => tag (fieldAg p [p.path ++ [1]]) (
+    let pn := if p.field.extendee ≠ "" then p.field.fullName else p.field.name
+    let cn := if p.field.extendee ≠ "" then c.field.fullName else c.field.name
+    if pn ≠ cn then [fieldAnn "FIELD_SAME_NAME" c [c.path ++ [1]]] else [])
+
+def ruleFieldSameDefaultT (cur prev : Schema) : List TAnn :=
+  fieldPairsG cur prev fun c p => tag (fieldAg p [p.path ++ [7], p.path]) (
+    if !p.field.canHaveDefault || !c.field.canHaveDefault then [] else
+    if p.field.dflt.isZero && c.field.dflt.isZero then [] else
+    if !defaultsEqual p.field.dflt c.field.dflt then
+      [fieldAnn "FIELD_SAME_DEFAULT" c [c.path ++ [7], c.path]] else [])
+
+def ruleFieldSameOneofT (cur prev : Schema) : List TAnn :=
+  fieldPairsG cur prev fun c p => tag (fieldAg p [p.path]) (
+    if p.field.extendee ≠ "" then [] else
+    match p.field.realOneof, c.field.realOneof with
+    | none, none => []
+    | some a, some b => if a ≠ b then [fieldAnn "FIELD_SAME_ONEOF" c [c.path]] else []
+    | _, _ => [fieldAnn "FIELD_SAME_ONEOF" c [c.path]])
+
+def ruleRpcNoDeleteT (cur prev : Schema) : List TAnn :=
+  svcPairsG cur prev fun c p => tag (svcAg p) (
+    p.svc.methods.flatMap fun pm =>
+      if pm.name ∈ c.svc.methods.map (·.name) then [] else [svcLoc c "RPC_NO_DELETE"])
+
+def methodSameT {β : Type} [DecidableEq β] (rule : String) (get : Method → β) (sub : List Nat) (cur prev : Schema) : List TAnn :=
+  methodPairsG cur prev fun c p => tag (agAt p.file p.locs [p.path ++ sub]) (
+    if get p.m ≠ get c.m then [annAt rule c.file c.locs [c.path ++ sub] c.file] else [])
+
+/-- rule id ↦ tagged handler (same ids, same order as `ruleTable`) -/
+def ruleTableT : List (String × (Schema → Schema → List TAnn)) := [
+  ("ENUM_NO_DELETE", ruleEnumNoDeleteT),
+  ("EXTENSION_NO_DELETE", ruleExtensionNoDeleteT),
+  ("FILE_NO_DELETE", ruleFileNoDeleteT),
+  ("MESSAGE_NO_DELETE", ruleMessageNoDeleteT),
+  ("SERVICE_NO_DELETE", ruleServiceNoDeleteT),
+  ("ENUM_SAME_TYPE", ruleEnumSameTypeT),
+  ("ENUM_SAME_JSON_FORMAT", ruleEnumSameJsonFormatT),
+  ("ENUM_VALUE_NO_DELETE", enumValueNoDeleteT "ENUM_VALUE_NO_DELETE" false false),
+  ("ENUM_VALUE_NO_DELETE_UNLESS_NAME_RESERVED", enumValueNoDeleteT "ENUM_VALUE_NO_DELETE_UNLESS_NAME_RESERVED" false true),
+  ("ENUM_VALUE_NO_DELETE_UNLESS_NUMBER_RESERVED", enumValueNoDeleteT "ENUM_VALUE_NO_DELETE_UNLESS_NUMBER_RESERVED" true false),
+  ("ENUM_VALUE_SAME_NAME", ruleEnumValueSameNameT),
+  ("RESERVED_ENUM_NO_DELETE", ruleReservedEnumNoDeleteT),
+  ("EXTENSION_MESSAGE_NO_DELETE", ruleExtensionMessageNoDeleteT),
+  ("FIELD_NO_DELETE", fieldNoDeleteT "FIELD_NO_DELETE" false false),
+  ("FIELD_NO_DELETE_UNLESS_NAME_RESERVED", fieldNoDeleteT "FIELD_NO_DELETE_UNLESS_NAME_RESERVED" false true),
+  ("FIELD_NO_DELETE_UNLESS_NUMBER_RESERVED", fieldNoDeleteT "FIELD_NO_DELETE_UNLESS_NUMBER_RESERVED" true false),
+  ("MESSAGE_NO_REMOVE_STANDARD_DESCRIPTOR_ACCESSOR", ruleMessageNoRemoveStdAccessorT),
+  ("ONEOF_NO_DELETE", ruleOneofNoDeleteT),
+  ("MESSAGE_SAME_JSON_FORMAT", ruleMessageSameJsonFormatT),
+  ("MESSAGE_SAME_REQUIRED_FIELDS", ruleMessageSameRequiredFieldsT),
+  ("RESERVED_MESSAGE_NO_DELETE", ruleReservedMessageNoDeleteT),
+  ("FIELD_SAME_CARDINALITY", cardRuleT "FIELD_SAME_CARDINALITY" (fun c => c.ctorIdx)),
+  ("FIELD_WIRE_COMPATIBLE_CARDINALITY", cardRuleT "FIELD_WIRE_COMPATIBLE_CARDINALITY" Card.wireGroup),
+  ("FIELD_WIRE_JSON_COMPATIBLE_CARDINALITY", cardRuleT "FIELD_WIRE_JSON_COMPATIBLE_CARDINALITY" Card.wireJsonGroup),
+  ("FIELD_SAME_TYPE", ruleFieldSameTypeT),
+  ("FIELD_WIRE_COMPATIBLE_TYPE", ruleFieldWireCompatibleTypeT),
+  ("FIELD_WIRE_JSON_COMPATIBLE_TYPE", ruleFieldWireJsonCompatibleTypeT),
+  ("FIELD_SAME_JSTYPE", ruleFieldSameJstypeT),
+  ("FIELD_SAME_UTF8_VALIDATION", ruleFieldSameUtf8ValidationT),
+  ("FIELD_SAME_JSON_NAME", ruleFieldSameJsonNameT),
+  ("FIELD_SAME_NAME", ruleFieldSameNameT),
+  ("FIELD_SAME_DEFAULT", ruleFieldSameDefaultT),
+  ("FIELD_SAME_ONEOF", ruleFieldSameOneofT),
+  ("RPC_NO_DELETE", ruleRpcNoDeleteT),
+  ("RPC_SAME_CLIENT_STREAMING", methodSameT "RPC_SAME_CLIENT_STREAMING" (·.clientStreaming) []),
+  ("RPC_SAME_SERVER_STREAMING", methodSameT "RPC_SAME_SERVER_STREAMING" (·.serverStreaming) []),
+  ("RPC_SAME_IDEMPOTENCY_LEVEL", methodSameT "RPC_SAME_IDEMPOTENCY_LEVEL" (·.idempotency) [4, 34]),
+  ("RPC_SAME_REQUEST_TYPE", methodSameT "RPC_SAME_REQUEST_TYPE" (·.input) [2]),
+  ("RPC_SAME_RESPONSE_TYPE", methodSameT "RPC_SAME_RESPONSE_TYPE" (·.output) [3]),
+  ("PACKAGE_ENUM_NO_DELETE", rulePackageEnumNoDeleteT),
+  ("PACKAGE_EXTENSION_NO_DELETE", rulePackageExtensionNoDeleteT),
+  ("PACKAGE_MESSAGE_NO_DELETE", rulePackageMessageNoDeleteT),
+  ("PACKAGE_SERVICE_NO_DELETE", rulePackageServiceNoDeleteT),
+  ("PACKAGE_NO_DELETE", rulePackageNoDeleteT),
+  ("FILE_SAME_SYNTAX", ruleFileSameSyntaxT),
+  ("FILE_SAME_PACKAGE", ruleFileSamePackageT)]
+
+def runRuleT (id : String) (cur prev : Schema) : List TAnn :=
+  match ruleTableT.lookup id with
+  | some f => f cur prev
+  | none =>
+    match fileOptRules.lookup id with
+    | some n => ruleFileSameOptionT id n cur prev
+    | none => []
+
+def checkT (v : Ver) (cat : String) (cur prev : Schema) : List TAnn :=
+  (rulesOf v cat).flatMap fun id => runRuleT id cur prev
+
+/-- `IsImport()` of the file with that path (`false` when there is no such file) -/
+def impOf (s : Schema) (path : String) : Bool :=
+  match s.find? (fun f => decide (f.path = path)) with
+  | some f => f.isImport
+  | none => false
+
+/-- client.go ignoreAnnotation with config.ExcludeImports: the file location (if any) is in an
+    import of the current image, or the against location (if any) is in an import of the previous -/
+def dropped (cur prev : Schema) (t : TAnn) : Bool :=
+  (t.ann.file != "" && impOf cur t.ann.file) ||
+  (match t.against with
+   | some g => impOf prev g
+   | none => false)
+
+def exclFilter (cur prev : Schema) (ts : List TAnn) : List Ann :=
+  (ts.filter fun t => !dropped cur prev t).map (·.ann)
+
+/-- one rule id alone, with / without `BreakingWithExcludeImports` -/
+def runRuleX (excl : Bool) (id : String) (cur prev : Schema) : List Ann :=
+  if excl then exclFilter cur prev (runRuleT id cur prev) else runRule id cur prev
+
+/-- `bufcheck.Client.Breaking` for one category, with / without `BreakingWithExcludeImports` -/
+def checkX (excl : Bool) (v : Ver) (cat : String) (cur prev : Schema) : List Ann :=
+  if excl then exclFilter cur prev (checkT v cat cur prev) else check v cat cur prev
+
 end BufModel.Breaking
